@@ -240,8 +240,12 @@ impl Run {
                         }
                         let key = IN_FLIGHT_KEY.fetch_add(1, Ordering::SeqCst);
                         IN_FLIGHT.lock().unwrap().insert(key, (i, Instant::now()));
+                        let t0 = Instant::now();
                         let r = guard(|| f(i));
                         IN_FLIGHT.lock().unwrap().remove(&key);
+                        if std::env::var_os("CV_TRACE_SLOW").is_some() && t0.elapsed().as_secs() >= 5 {
+                            eprintln!("slow case {i}: {:.1}s", t0.elapsed().as_secs_f64());
+                        }
                         if let Err(msg) = r {
                             self.inconclusive(format!("harness error in case {i}: {msg}"));
                         }
